@@ -382,6 +382,74 @@ func numPlan(thorough bool) *plan {
 	return p
 }
 
+// cbContainers / cbCallbacks: a container bound to a global while it is passed as an argument, and function values
+// that write into THAT container in place every time they are called.  A builtin that takes a sequence (or map, or
+// byte string) together with a function runs user code in the middle of its own work: what it knew about the
+// container before the call (length, cell slice, capacity) may no longer hold after it.
+var cbContainers = []struct{ kind, expr string }{
+	{"vector", `(progn (set 'c03mv (vector 1 3 5 7 9 11 13 15)) c03mv)`},
+	{"vector-1", `(progn (set 'c03mv (vector 4)) c03mv)`},
+	{"map", `(progn (set 'c03mv (sorted-map "a" 1 "b" 2 "c" 3)) c03mv)`},
+	{"bytes", `(progn (set 'c03mv (to-bytes "abcdefgh")) c03mv)`},
+}
+
+var cbEffects = []struct{ kind, body string }{
+	{"grow", `(ignore-errors (append! c03mv 0)) (ignore-errors (assoc! c03mv (to-string (length (keys c03mv))) 0)) (ignore-errors (append-bytes! c03mv "z"))`},
+	{"shrink", `(ignore-errors (elpspath:?del! c03mv 0)) (ignore-errors (dissoc! c03mv (car (keys c03mv))))`},
+	{"shrink-to-nothing", `(ignore-errors (elpspath:?del! c03mv '*)) (ignore-errors (map 'list (lambda (k) (dissoc! c03mv k)) (keys c03mv)))`},
+	{"rewrite", `(ignore-errors (elpspath:?set! c03mv 0 99)) (ignore-errors (assoc! c03mv "a" 99)) (ignore-errors (stable-sort > c03mv))`},
+}
+
+var cbReturns = []struct{ kind, expr string }{{"true", `true`}, {"false", `false`}, {"first-arg", `(car xs)`}, {"int", `(length xs)`}}
+
+func cbCallbacks() (kinds, exprs []string) {
+	for _, e := range cbEffects {
+		for _, r := range cbReturns {
+			kinds = append(kinds, e.kind+"/"+r.kind)
+			exprs = append(exprs, "(lambda (&rest xs) "+e.body+" "+r.expr+")")
+		}
+	}
+	return
+}
+
+// cbPlan: every registered FUNCTION x every bindable arity >= 2 x every ordered pair of distinct positions (container,
+// callback) x container kind x callback, the other positions at their formal-aware default.
+func cbPlan(thorough bool) *plan {
+	p := &plan{}
+	_, cbs := cbCallbacks()
+	for _, c := range registry() {
+		if c.special() {
+			continue
+		}
+		top := c.maxBindable()
+		if !thorough && top > 5 {
+			top = 5
+		}
+		for n := 2; n <= top; n++ {
+			if !c.bindable(n) {
+				continue
+			}
+			for i := 0; i < n; i++ {
+				for j := 0; j < n; j++ {
+					if i == j {
+						continue
+					}
+					for _, ct := range cbContainers {
+						slots := make([][]string, n)
+						for k := range slots {
+							slots[k] = []string{slotDefault(c, k)}
+						}
+						slots[i] = []string{ct.expr}
+						slots[j] = cbs
+						p.add(c, "", fmt.Sprintf("CB/n=%d/container=%d:%s/callback=%d", n, i, ct.kind, j), slots)
+					}
+				}
+			}
+		}
+	}
+	return p
+}
+
 func intsKey(P []int) string {
 	s := make([]string, len(P))
 	for i, x := range P {
@@ -763,6 +831,8 @@ func buildSpace(name string, thorough bool, aux auxData) (*space, error) {
 		sp := planSpace(name, numPlan(thorough), "sweep-tight", 128, 64)
 		sp.WatchCPU = numWatchCPU
 		return sp, nil
+	case "CB":
+		return planSpace(name, cbPlan(thorough), "sweep-tight", 128, 64), nil
 	case "V1", "V2":
 		return planSpace(name, closurePlan(aux.Vals, aux.Kinds, thorough && name == "V1", name), "sweep", 2048, 64), nil
 	case "sink-cyclic":
